@@ -15,6 +15,7 @@ type c18stage struct {
 	Name, Task, Pipeline string
 	Deps                 []string
 	Unnamed              bool // no `name:` in the file; the stage is called after its task / pipeline
+	Cond                 string
 }
 type c18cfg struct {
 	Tasks     []string
@@ -55,6 +56,9 @@ func (g c18cfg) yaml() string {
 			}
 			if s.Pipeline != "" {
 				o.Set("pipeline", s.Pipeline)
+			}
+			if s.Cond != "" {
+				o.Set("condition", s.Cond)
 			}
 			if len(s.Deps) > 0 {
 				var d []interface{}
@@ -266,6 +270,49 @@ func c18mutants(g c18cfg) []c18mut {
 			m.Pipelines[name] = []c18stage{{Name: "a", Task: g.Tasks[0]}, {Name: "b", Pipeline: fmt.Sprintf("cyc%d", (k+1)%L), Deps: []string{"a"}}}
 		}
 		ms = append(ms, c18mut{fmt.Sprintf("inclusion-cycle-%d", L), m, fmt.Sprintf("cyc0->...->cyc%d->cyc0", L-1)})
+	}
+	// the same cycles where the including stages carry a stage-level condition (a cycle is a cycle whatever the
+	// condition will say at run time)
+	for L := 1; L <= 3; L++ {
+		m := g.clone()
+		for k := 0; k < L; k++ {
+			name := fmt.Sprintf("ccyc%d", k)
+			m.Order = append(m.Order, name)
+			cond := "true"
+			if k == L-1 {
+				cond = "test -e /nonexistent-marker"
+			}
+			m.Pipelines[name] = []c18stage{{Name: "a", Task: g.Tasks[0]}, {Name: "b", Pipeline: fmt.Sprintf("ccyc%d", (k+1)%L), Deps: []string{"a"}, Cond: cond}}
+		}
+		ms = append(ms, c18mut{fmt.Sprintf("inclusion-cycle-%d", L), m, fmt.Sprintf("conditional including stages: ccyc0->...->ccyc%d->ccyc0", L-1)})
+	}
+	// depends_on naming the TASK (or included pipeline) of a stage that has another, explicit name
+	for _, p := range g.Order {
+		st := g.Pipelines[p]
+		names := map[string]bool{}
+		for _, x := range st {
+			names[x.Name] = true
+		}
+		done := false
+		for j, x := range st {
+			target := x.Task
+			if target == "" {
+				target = x.Pipeline
+			}
+			if x.Unnamed || target == x.Name || names[target] || done {
+				continue
+			}
+			for i := range st {
+				if i == j {
+					continue
+				}
+				m := g.clone()
+				m.Pipelines[p][i].Deps = append(m.Pipelines[p][i].Deps, target)
+				ms = append(ms, c18mut{"depends_on", m, fmt.Sprintf("%s[%d].depends_on+=%s (what the stage named %s runs, not a stage name)", p, i, target, x.Name)})
+				done = true
+				break
+			}
+		}
 	}
 	return ms
 }
